@@ -299,9 +299,6 @@ Proof.
   - apply nth_error_None in E. unfold zlen in Hn. lia.
 Qed.
 
-Section PadValid.
-Variable vfv : bytes -> bool.
-
 Lemma set_size_large size : attr_large (snd (set_size 0 size false)) = (16777215 <=? size).
 Proof. unfold set_size. destruct (16777215 <=? size); reflexivity. Qed.
 
@@ -322,7 +319,8 @@ Proof.
     inversion H. unfold file_hlen. rewrite L. reflexivity.
 Qed.
 
-Lemma pad_v_file pol size b : create_pad_file pol size = Ok b -> size < 2 ^ 64 -> v_file vfv b = true.
+Lemma pad_v_file (vfv : bytes -> bool) pol size b :
+  create_pad_file pol size = Ok b -> size < 2 ^ 64 -> v_file vfv b = true.
 Proof.
   intros H Hs. destruct (pad_as_caa pol size b H) as (attr & Ha & Hl & H24 & Hp & ->).
   assert (Hh : file_hlen attr <= size) by (unfold file_hlen; destruct (attr_large attr); lia).
@@ -357,7 +355,6 @@ Proof.
   rewrite Hc in R. lia.
 Qed.
 
-End PadValid.
 
 (* ---------- the reader accepts the file area the file loop builds ---------- *)
 
@@ -436,8 +433,8 @@ Proof.
   assert (An : announced V p = zlen g).
   { unfold announced. rewrite R19. fold attr. rewrite <- Hsz.
     destruct (attr_large attr) eqn:El.
-    - unfold V. apply rd_mid; auto; try lia. unfold file_hlen in Hhl. rewrite El in Hhl. cbn. lia.
-    - unfold V. apply rd_mid; auto; try lia. cbn. lia. }
+    - unfold V. unfold file_hlen in Hhl. rewrite El in Hhl. apply rd_mid; auto; cbn; lia.
+    - unfold V. apply rd_mid; auto; cbn; lia. }
   rewrite An.
   replace (file_hlen attr <=? zlen g) with true by lia.
   replace (p + zlen g <=? zlen V) with true by lia.
@@ -452,9 +449,16 @@ Proof.
 Qed.
 
 Lemma align8_fix p : p mod 8 = 0 -> align8 p = p.
-Proof. intros H. unfold align8, align. pose proof (Z.div_mod p 8 ltac:(lia)). 
-  replace (p + 8 - 1) with (8 * (p / 8) + 7) by lia.
-  rewrite Z.mul_comm, Z.div_add_l by lia. change (7 / 8) with 0. lia. Qed.
+Proof. intros H. unfold align8, align. Z.div_mod_to_equations. lia. Qed.
+
+Lemma end_of_ge : forall l off, 0 <= off -> off <= end_of off l.
+Proof.
+  induction l as [|f r IH]; intros off Hoff; cbn [end_of]; [lia|].
+  destruct (align_gap_ok off f Hoff) as (G1 & _). pose proof (align8_ge off).
+  pose proof (zlen_nonneg (node_buf f)).
+  assert (0 <= file_end off f) by (unfold file_end; lia).
+  specialize (IH (file_end off f) H1). unfold file_end in *. lia.
+Qed.
 
 (* the whole loop *)
 Lemma v_files_place limit : forall files buf off B,
@@ -465,7 +469,7 @@ Lemma v_files_place limit : forall files buf off B,
   forall E fuel, all_eq pol E = true -> (2 * length files < fuel)%nat ->
     v_files vfv fuel pol (B ++ E) (align8 off) = true.
 Proof.
-  induction files as [|f r IH]; intros buf off B Hpol Hb Hoff Hok Hsz Hend H E fuel HE Hfuel.
+  induction files as [|f r IH]; intros buf off B Hpol Hb Hoff Hok Hsz Hend H E fuel HE Hfuel; subst off.
   - cbn [place_files] in H. inversion H; subst B. destruct fuel as [|k]; [cbn in Hfuel; lia|].
     apply v_files_free. pose proof (align8_ge (zlen buf)).
     rewrite zskipn_app_ge by lia. apply all_eq_zskipn. exact HE.
@@ -509,7 +513,7 @@ Proof.
       destruct fuel as [|[|k]]; try lia. replace (S (S k) - 2)%nat with k in IH by lia.
       assert (Z0 : no - zlen b = 0) by lia.
       assert (EB : B ++ E = (buf ++ zrepeat pol (a0 - zlen buf)) ++ pf ++ (node_buf f ++ D ++ E)).
-      { rewrite ED, J2, I2, Z0. change (zrepeat pol 0) with (@nil Z). rewrite <- !app_assoc. reflexivity. }
+      { rewrite ED, J2, Z0, I2. change (zrepeat pol 0) with (@nil Z). rewrite <- !app_assoc. reflexivity. }
       assert (EB2 : B ++ E = ((buf ++ zrepeat pol (a0 - zlen buf)) ++ pf) ++ node_buf f ++ (D ++ E)).
       { rewrite EB. rewrite <- !app_assoc. reflexivity. }
       destruct (pad_attr pol (no - a0) pf Hp) as [Pa Ph].
@@ -524,8 +528,255 @@ Proof.
       * rewrite zlen_app, zlen_zrepeat by lia. lia.
       * lia.
       * unfold fok. rewrite (pad_v_file vfv pol (no - a0) pf Hp), (pad_not_free pol (no - a0) pf Hp); [reflexivity|].
-        pose proof (zlen_nonneg (node_buf f)). lia.
+        pose proof (zlen_nonneg (node_buf f)). pose proof (end_of_ge r _ Hpos). lia.
       * rewrite Pa. apply Z.mod_1_r.
 Qed.
 
 End FilesValid.
+
+(* ---------- from the loop to the rebuilt volume ---------- *)
+
+Lemma end_of_file_le : forall l off f, 0 <= off -> In f l -> zlen (node_buf f) <= end_of off l.
+Proof.
+  induction l as [|g r IH]; intros off f Hoff Hin; [destruct Hin|]. cbn [end_of].
+  destruct (align_gap_ok off g Hoff) as (G1 & _). pose proof (align8_ge off).
+  pose proof (zlen_nonneg (node_buf g)).
+  assert (Hp : 0 <= file_end off g) by (unfold file_end; lia).
+  destruct Hin as [-> | Hin].
+  - pose proof (end_of_ge r _ Hp). unfold file_end in *. lia.
+  - apply IH; auto.
+Qed.
+
+(* the bytes the loop appends do not depend on the bytes already in the buffer *)
+Fixpoint layout (pol : Z) (limit : option Z) (off : Z) (files : list node) : outcome bytes :=
+  match files with
+  | [] => Ok []
+  | f :: r =>
+    let fb := node_buf f in
+    if zlen fb =? 0 then Panic 201 else
+    let a0 := align8 off in
+    let no := file_start off f in
+    if (match limit with Some l => l <? no + zlen fb | None => false end) then Err E_NOSPACE else
+    do P <- (if no =? a0 then Ok [] else create_pad_file pol (no - a0));
+    do D <- layout pol limit (no + zlen fb) r;
+    Ok (zrepeat pol (a0 - off) ++ P ++ fb ++ D)
+  end.
+
+Lemma place_files_as_layout pol limit : forall files buf off, zlen buf = off -> 0 <= off ->
+  place_files pol limit buf off files = (do D <- layout pol limit off files; Ok (buf ++ D)).
+Proof.
+  induction files as [|f r IH]; intros buf off Hb Hoff.
+  - cbn [place_files layout bind]. rewrite app_nil_r. reflexivity.
+  - rewrite place_files_cons. cbn [layout]. cbv zeta.
+    destruct (zlen (node_buf f) =? 0) eqn:Ez; [reflexivity|].
+    destruct (align_gap_ok off f Hoff) as (G1 & G2 & G3 & G4). pose proof (align8_ge off) as G8.
+    set (no := file_start off f) in *. set (a0 := align8 off) in *.
+    destruct (match limit with Some l => l <? no + zlen (node_buf f) | None => false end); [reflexivity|].
+    pose proof (zlen_nonneg (node_buf f)) as Hfb.
+    destruct (no =? a0) eqn:En.
+    + cbn [bind]. unfold insert_file. replace (no <? zlen buf) with false by lia. rewrite Ez. cbn [bind].
+      rewrite IH by (rewrite ?zlen_app, ?zlen_zrepeat by lia; lia).
+      destruct (layout pol limit (no + zlen (node_buf f)) r); cbn [bind]; try reflexivity.
+      replace (a0 - off) with (no - zlen buf) by lia. rewrite <- !app_assoc. reflexivity.
+    + destruct (create_pad_file pol (no - a0)) as [pf| | |] eqn:Ep; cbn [bind]; try reflexivity.
+      pose proof (create_pad_file_len _ _ _ Ep) as Lp.
+      unfold insert_file at 1. replace (a0 <? zlen buf) with false by lia.
+      replace (zlen pf =? 0) with false by lia. cbn [bind].
+      unfold insert_file. rewrite !zlen_app, zlen_zrepeat by lia.
+      replace (no <? zlen buf + (a0 - zlen buf + zlen pf)) with false by lia. rewrite Ez. cbn [bind].
+      rewrite IH by (rewrite ?zlen_app, ?zlen_zrepeat by lia; lia).
+      destruct (layout pol limit (no + zlen (node_buf f)) r); cbn [bind]; try reflexivity.
+      replace (no - (zlen buf + (a0 - zlen buf + zlen pf))) with 0 by lia.
+      change (zrepeat pol 0) with (@nil Z). subst off. rewrite <- !app_assoc. reflexivity.
+Qed.
+
+Lemma place_files_prefix pol limit files buf buf' off D : zlen buf = off -> zlen buf' = off -> 0 <= off ->
+  place_files pol limit buf off files = Ok (buf ++ D) ->
+  place_files pol limit buf' off files = Ok (buf' ++ D).
+Proof.
+  intros H1 H2 H3 H. rewrite place_files_as_layout in * by auto.
+  destruct (layout pol limit off files) as [D'| | |]; cbn [bind] in *; try discriminate.
+  inversion H as [E]. apply app_inv_head in E. subst D'. reflexivity.
+Qed.
+
+(* the reader accepts the file area of a rebuilt non-resizable volume *)
+Lemma asm_vol_files_valid vfv fx pol ffs3 h buf files h' b :
+  asm_vol_v fx pol ffs3 h buf files = Ok (h', b) ->
+  vol_verbatim fx h files = false -> v_resizable h = false ->
+  60 <= v_dataoff h -> v_dataoff h mod 8 = 0 -> (pol = 0 \/ pol = 255) -> v_length h < 2 ^ 64 ->
+  Forall (fun f => fok vfv pol (node_buf f) = true /\ rd 19 1 (node_buf f) = node_attr f) files ->
+  forall fuel, (2 * length files < fuel)%nat -> v_files vfv fuel pol b (v_dataoff h) = true.
+Proof.
+  intros H Hv Hr Hd Hm Hpol Hlen Hok fuel Hfuel.
+  destruct (asm_vol_v_len _ _ _ _ _ _ _ _ H Hv Hr) as [Lb _].
+  destruct (asm_vol_v_inv _ _ _ _ _ _ _ _ H Hv Hr)
+    as (hdr & b1 & c & s & rest & hb & Hs & Hp & Hl & Hdo & He & Hb & Hz).
+  cbv zeta in Hz. destruct Hz as (L60 & L4 & Hsl & Eb & _ & _).
+  apply slice_len in Hs as (Lh & _ & _). rewrite Z.sub_0_r in Lh.
+  destruct (place_files_layout pol _ files hdr (v_dataoff h) b1 Lh ltac:(lia) Hp) as (Le & (D & ED) & _ & _).
+  set (b2 := if zlen b1 <? v_length h then b1 ++ zrepeat pol (v_length h - zlen b1) else b1) in *.
+  set (E := if zlen b1 <? v_length h then zrepeat pol (v_length h - zlen b1) else []).
+  assert (E2 : b2 = b1 ++ E) by (unfold b2, E; destruct (zlen b1 <? v_length h); [reflexivity | rewrite app_nil_r; reflexivity]).
+  assert (HE : all_eq pol E = true) by (unfold E; destruct (zlen b1 <? v_length h); [apply all_eq_zrepeat | reflexivity]).
+  assert (L2 : zlen b2 = v_length h).
+  { unfold b2. destruct (zlen b1 <? v_length h) eqn:E0; [rewrite zlen_app, zlen_zrepeat by lia; lia | lia]. }
+  (* the bytes from the data offset on are those of b2 *)
+  assert (Sk : zskipn (v_dataoff h) b = zskipn (v_dataoff h) b2).
+  { rewrite Eb.
+    rewrite zskipn_splice_below; rewrite ?le2; try lia.
+    2:{ rewrite !zlen_splice; rewrite ?le4, ?L4; try lia; change (zlen [0;0]) with 2; rewrite ?zlen_splice; rewrite ?le4, ?L4; lia. }
+    rewrite zskipn_splice_below; change (zlen [0;0]) with 2; try lia.
+    2:{ rewrite zlen_splice; rewrite ?le4, ?L4; lia. }
+    rewrite zskipn_splice_below; rewrite ?le4, ?L4; try lia.
+    destruct (ffs3 && bytes_eqb (v_guid h) FFS2).
+    - rewrite zskipn_splice_below; change (zlen FFS3) with 16; try lia.
+      2:{ rewrite zlen_splice; rewrite ?le8; lia. }
+      rewrite zskipn_splice_below; rewrite ?le8; try lia. reflexivity.
+    - rewrite zskipn_splice_below; rewrite ?le8; try lia. reflexivity. }
+  set (H' := zfirstn (v_dataoff h) b).
+  pose proof (end_of_ge files (v_dataoff h) ltac:(lia)) as Hge.
+  assert (LH : zlen H' = v_dataoff h) by (unfold H'; apply zlen_zfirstn; lia).
+  assert (Eb' : b = (H' ++ D) ++ E).
+  { rewrite <- (zfirstn_zskipn (v_dataoff h) b). fold H'. rewrite Sk, E2, ED.
+    rewrite <- Lh. rewrite <- !app_assoc. rewrite zskipn_app_exact. reflexivity. }
+  assert (Hp' : place_files pol (Some (v_length h)) H' (v_dataoff h) files = Ok (H' ++ D)).
+  { eapply place_files_prefix; [exact Lh | exact LH | lia | rewrite <- ED; exact Hp]. }
+  rewrite Eb'. rewrite <- (align8_fix (v_dataoff h) Hm).
+  eapply v_files_place; eauto; try lia.
+  - intros f Hin. pose proof (end_of_file_le files (v_dataoff h) f ltac:(lia) Hin). lia.
+Qed.
+
+(* ---------- the header checksum of a rebuilt volume ---------- *)
+
+Lemma words16_app_even b : forall n a, length a = (2 * n)%nat -> words16 (a ++ b) = words16 a ++ words16 b.
+Proof.
+  induction n as [|n IH]; intros a Ha.
+  - destruct a; [reflexivity | discriminate].
+  - destruct a as [|x [|y a]]; try (cbn in Ha; lia).
+    cbn [app words16]. rewrite IH by (cbn in Ha; lia). reflexivity.
+Qed.
+
+Lemma sum16_splice50 hb x y : 52 <= zlen hb ->
+  sum16 (splice 50 [x; y] hb) =
+  (sum_list (words16 (zfirstn 50 hb)) + (x + 256 * y) + sum_list (words16 (zskipn 52 hb))) mod 65536.
+Proof.
+  intros Hl. unfold sum16, splice. change (50 + zlen [x; y]) with 52.
+  assert (L50 : length (zfirstn 50 hb) = (2 * 25)%nat).
+  { unfold zfirstn. rewrite firstn_length. unfold zlen in Hl. lia. }
+  rewrite (words16_app_even _ 25 _ L50). cbn [app words16].
+  rewrite sum_list_app. unfold sum_list at 2. cbn [fold_right]. fold (sum_list (words16 (zskipn 52 hb))).
+  f_equal. lia.
+Qed.
+
+Lemma splice_sub_same hb : 52 <= zlen hb -> splice 50 (sub 50 2 hb) hb = hb.
+Proof. intros H. apply splice_same; lia. Qed.
+
+Lemma zfirstn_splice off d b n : 0 <= off -> off + zlen d <= n -> n <= zlen b ->
+  zfirstn n (splice off d b) = splice off d (zfirstn n b).
+Proof.
+  intros H1 H2 H3. unfold splice, zfirstn, zskipn, zlen in *.
+  set (o := Z.to_nat off). set (m := Z.to_nat n). set (k := length d).
+  assert (Eo : Z.to_nat (off + Z.of_nat k) = (o + k)%nat) by (unfold o, k; lia).
+  rewrite Eo.
+  assert (Ho : (o + k <= m)%nat) by (unfold o, m, k; lia).
+  assert (Hm : (m <= length b)%nat) by (unfold m; lia).
+  assert (La : length (firstn o b) = o) by (rewrite firstn_length; lia).
+  rewrite firstn_app, La. rewrite firstn_all2 by (rewrite La; lia).
+  rewrite firstn_app. rewrite (firstn_all2 d) by (fold k; lia).
+  rewrite firstn_firstn. replace (Nat.min o m) with o by lia.
+  f_equal. f_equal. fold k.
+  rewrite firstn_skipn_comm. f_equal. f_equal. lia.
+Qed.
+
+Lemma le_enc2_word s : 0 <= s < 65536 ->
+  exists x y, le_enc 2 s = [x; y] /\ x + 256 * y = s.
+Proof.
+  intros Hs. exists (s mod 256), ((s / 256) mod 256). split; [reflexivity|].
+  rewrite (Z.mod_small (s / 256)) by (split; [apply Z.div_pos; lia | apply Z.div_lt_upper_bound; lia]).
+  pose proof (Z.div_mod s 256). lia.
+Qed.
+
+(* asm_vol: the 16-bit sum of the header of a rebuilt volume is zero *)
+Lemma asm_vol_hdr_cksum fx pol ffs3 h buf files h' b :
+  asm_vol_v fx pol ffs3 h buf files = Ok (h', b) ->
+  vol_verbatim fx h files = false -> v_resizable h = false -> 52 <= v_hdrlen h ->
+  sum16 (sub 0 (v_hdrlen h) b) = 0.
+Proof.
+  intros H Hv Hr H52.
+  destruct (asm_vol_v_inv _ _ _ _ _ _ _ _ H Hv Hr)
+    as (hdr & b1 & c & s & rest & hb & Hs & Hp & Hl & Hdo & He & Hb & Hz).
+  cbv zeta in Hz. destruct Hz as (L60 & L4 & Hsl & Eb & _ & _).
+  set (b2 := if zlen b1 <? v_length h then b1 ++ zrepeat pol (v_length h - zlen b1) else b1) in *.
+  set (b3 := splice 32 (le_enc 8 (v_length h)) b2) in *.
+  set (b4 := if ffs3 && bytes_eqb (v_guid h) FFS2 then splice 16 FFS3 b3 else b3) in *.
+  set (b5 := splice 56 (le_enc 4 c) b4) in *.
+  set (b6 := splice 50 [0; 0] b5) in *.
+  assert (L5 : zlen b5 = zlen b2) by (unfold b5; rewrite zlen_splice; rewrite ?le4; lia).
+  assert (L6 : zlen b6 = zlen b2) by (unfold b6; rewrite zlen_splice; change (zlen [0;0]) with 2; lia).
+  pose proof (slice_len _ _ _ _ Hsl) as (Lhb & _ & Hhi). rewrite Z.sub_0_r in Lhb.
+  apply slice0_eq in Hsl. 
+  set (sm := (0 - sum16 hb) mod 65536) in *.
+  assert (Hsm : 0 <= sm < 65536) by (unfold sm; apply Z.mod_pos_bound; lia).
+  destruct (le_enc2_word sm Hsm) as (x & y & Exy & Sxy).
+  rewrite Eb. unfold sub. change (zskipn 0 ?l) with l.
+  rewrite zfirstn_splice; rewrite ?le2; try lia. rewrite <- Hsl. rewrite Exy.
+  rewrite sum16_splice50 by lia.
+  (* hb carries zeros at 50..51 *)
+  assert (Z50 : sub 50 2 hb = [0; 0]).
+  { rewrite Hsl. unfold sub. unfold zskipn, zfirstn.
+    rewrite firstn_skipn_comm. rewrite firstn_firstn.
+    replace (Nat.min (Z.to_nat 50 + Z.to_nat 2) (Z.to_nat (v_hdrlen h))) with (Z.to_nat 50 + Z.to_nat 2)%nat by lia.
+    rewrite <- firstn_skipn_comm.
+    change (firstn (Z.to_nat 2) (skipn (Z.to_nat 50) b6)) with (sub 50 (zlen [0; 0]) b6).
+    unfold b6. apply sub_splice; change (zlen [0;0]) with 2; lia. }
+  assert (Shb : sum16 hb =
+                (sum_list (words16 (zfirstn 50 hb)) + (0 + 256 * 0) + sum_list (words16 (zskipn 52 hb))) mod 65536).
+  { rewrite <- (splice_sub_same hb) at 1 by lia. rewrite Z50. apply sum16_splice50. lia. }
+  rewrite Sxy. unfold sm. rewrite Shb.
+  set (P := sum_list (words16 (zfirstn 50 hb))). set (Q := sum_list (words16 (zskipn 52 hb))).
+  Z.div_mod_to_equations. lia.
+Qed.
+
+(* asm_fv_nospace at the volume: a file that would end beyond Length makes the rebuild fail *)
+Lemma asm_vol_v_nospace fx pol ffs3 h buf files :
+  vol_verbatim fx h files = false -> v_resizable h = false -> 0 <= v_dataoff h ->
+  (exists k f s, nth_error files k = Some f /\ nth_error (file_starts (v_dataoff h) files) k = Some s /\
+                 v_length h < s + zlen (node_buf f)) ->
+  is_ok (asm_vol_v fx pol ffs3 h buf files) = false.
+Proof.
+  intros Hv Hr Hd Hex. unfold asm_vol_v. rewrite Hv, Hr.
+  destruct (v_length h <? zlen buf); [reflexivity|].
+  destruct (v_blocks h) as [|[c s] rest]; [reflexivity|].
+  destruct (v_dataoff h <? v_hdrlen h); [reflexivity|].
+  destruct (fx && (zlen buf <? v_dataoff h)); [reflexivity|].
+  destruct (slice 0 (v_dataoff h) buf) as [hdr|] eqn:Es; [|reflexivity]. cbn [of_opt bind].
+  apply slice_len in Es as (Lh & _ & _). rewrite Z.sub_0_r in Lh.
+  pose proof (place_files_nospace pol (v_length h) files hdr (v_dataoff h) Lh Hd Hex) as Hn.
+  destruct (place_files pol (Some (v_length h)) hdr (v_dataoff h) files); try discriminate; reflexivity.
+Qed.
+
+(* the volume-assembly core of C02 in one statement *)
+Lemma asm_vol_valid_core vfv fx pol ffs3 h buf files h' b :
+  asm_vol_v fx pol ffs3 h buf files = Ok (h', b) ->
+  vol_verbatim fx h files = false -> v_resizable h = false ->
+  60 <= v_dataoff h -> v_dataoff h mod 8 = 0 -> 52 <= v_hdrlen h ->
+  (pol = 0 \/ pol = 255) -> v_length h < 2 ^ 64 ->
+  Forall (fun f => fok vfv pol (node_buf f) = true /\ rd 19 1 (node_buf f) = node_attr f) files ->
+  zlen b = v_length h /\ v_length h' = v_length h /\
+  sum16 (sub 0 (v_hdrlen h) b) = 0 /\
+  forall fuel, (2 * length files < fuel)%nat -> v_files vfv fuel pol b (v_dataoff h) = true.
+Proof.
+  intros H Hv Hr Hd Hm H52 Hp Hl Hok.
+  destruct (asm_vol_v_len _ _ _ _ _ _ _ _ H Hv Hr) as [L1 L2].
+  repeat split; auto.
+  - eapply asm_vol_hdr_cksum; eauto.
+  - eapply asm_vol_files_valid; eauto.
+Qed.
+
+Lemma pad_file_valid : forall vfv pol size b,
+  create_pad_file pol size = Ok b -> size < 2 ^ 64 ->
+  v_file vfv b = true /\ all_eq pol (sub 0 24 b) = false /\ zlen b = size.
+Proof.
+  intros vfv pol size b H Hs. split; [exact (pad_v_file vfv pol size b H Hs)|].
+  split; [exact (pad_not_free pol size b H) | exact (create_pad_file_len pol size b H)].
+Qed.
